@@ -41,11 +41,13 @@ type zzC19SeqSuite struct {
 	inited bool
 }
 
-func (s *zzC19SeqSuite) String() string                               { return "zzC19" }
-func (s *zzC19SeqSuite) ID() CipherSuiteID                            { return s.id }
-func (s *zzC19SeqSuite) CertificateType() clientcertificate.Type      { return clientcertificate.ECDSASign }
-func (s *zzC19SeqSuite) HashFunc() func() hash.Hash                   { return nil }
-func (s *zzC19SeqSuite) AuthenticationType() types.AuthenticationType { return types.AuthenticationTypeCertificate }
+func (s *zzC19SeqSuite) String() string                          { return "zzC19" }
+func (s *zzC19SeqSuite) ID() CipherSuiteID                       { return s.id }
+func (s *zzC19SeqSuite) CertificateType() clientcertificate.Type { return clientcertificate.ECDSASign }
+func (s *zzC19SeqSuite) HashFunc() func() hash.Hash              { return nil }
+func (s *zzC19SeqSuite) AuthenticationType() types.AuthenticationType {
+	return types.AuthenticationTypeCertificate
+}
 func (s *zzC19SeqSuite) KeyExchangeAlgorithm() types.KeyExchangeAlgorithm {
 	return types.KeyExchangeAlgorithmEcdhe
 }
@@ -403,8 +405,8 @@ func zzC19ResumeEntryPointKeepsCIDs() {
 	isClient := zzsymChoice("isClient", 2) == 1
 	exported := &State{
 		localEpoch: 1, remoteEpoch: 1, isClient: isClient,
-		CipherSuiteID: TLS_ECDHE_ECDSA_WITH_AES_128_GCM_SHA256,
-		masterSecret:  zzsymBytes("ms", 48),
+		CipherSuiteID:  TLS_ECDHE_ECDSA_WITH_AES_128_GCM_SHA256,
+		masterSecret:   zzsymBytes("ms", 48),
 		sequenceNumber: zzsymU64("next_seq"),
 	}
 	exported.localRandom.UnmarshalFixed(zzC19SeqRandom("lrand"))
